@@ -7,6 +7,6 @@ fn vmax(a: usize, b: usize) -> (r: usize) ensures r == if a >= b { a } else { b 
 fn vmin(a: usize, b: usize) -> (r: usize) ensures r == if a <= b { a } else { b } { if a <= b { a } else { b } }
 // R23: debug_assert!/assert! become an obligation that the condition holds; panic! that it is unreachable
 fn vassert(c: bool) requires c {}
-fn vpanic() requires false {}
+fn vpanic<T>() -> T requires false { vstd::pervasive::unreached() }
 // a word has at most 2^30 characters (DESIGN.md §4.3)
 pub open spec fn fits(len: nat) -> bool { len <= 0x4000_0000 }
